@@ -151,6 +151,7 @@ def expand_c03(st, seed):
                          slice=[1, k], etab=[[], []])
     configured = set(ex) | ({"dyn"} if st["dyn"] else set())
     r["check"] = ["sum", "dyn"] + [n for n in ("ic", "norm", "bnd", "obs") if n not in configured]
+    r["rshape"] = st.get("rshape", "array")
     r["group"] = _key(st, drop=("twin", "call"))
     r["twin"] = st["twin"]
     r["call"] = st["call"]
